@@ -14,7 +14,7 @@ CFG = dict(
     theorems=["reachable_inv", "spec_is_from_scratch", "read_fresh", "processed_is_fresh", "eval_frame",
               "reads_idempotent", "exec_only_if_outdated", "exec_only_if_changed", "reexecution_needs_change",
               "version_counts_executions", "struct_version_counts_executions", "version_step_exact",
-              "remembered_length", "wf_preserved", "permuted_deps_spurious", "stable_deps_not_spurious"],
+              "remembered_length", "inCone_iff_reach", "wf_preserved", "permuted_deps_spurious", "stable_deps_not_spurious"],
     streams=[dict(name="c11", n=dict(quick=6000, thorough=100000))],
     trusted=[T_COMMON[1], T_COMMON[2],
              "hand-written model PolyVerif/Model/Nodes.lean of nodes/struct_node.go, value_node.go, parameter/value.go "
